@@ -466,16 +466,20 @@ _reg("C04", plan_accept("strict", "Trace_Accept_C04.cfg", "C04 strict acceptance
      "TLA+ grammar as oracle + TLC + trace validation of mutated frames")
 _reg("C20", plan_accept("mal", "Trace_Accept_C20.cfg", "C20 documented error per catalogue malformation", mc=False),
      "model_checking",
-     "Every catalogue malformation (25 kinds) at every site of seeded packets of every type: the grammar's first error must be "
+     "Every catalogue malformation (27 kinds) at every site of seeded packets of every type, and in large length classes: the grammar's first error must be "
      "the variant documented for the malformation (table Documented in Trace_Accept.tla) and the blocking, async and poll "
      "decoders must report exactly the grammar's error (variant and carried value; strict: remaining-length error, lenient: "
      "incomplete, for an inner length past the frame).", "catalogue enumeration at every site + TLA+ operational grammar + "
      "trace validation")
 _reg("C11", plan_accept("reenc", "Trace_Accept_C11.cfg", "C11 accepted input re-encodes and decodes to itself", gen="reenc"),
      "model_checking",
-     "Inputs: valid encodings (+ suffix), legal non-canonical spellings (short forms spelled out, reversed property order, "
-     "non-minimal remaining length), catalogue malformations, structure-aware corruptions. Whatever any front-end accepts is "
-     "re-encoded (a panic is data) and re-decoded on all three; the C11 equations are validated by TLC.",
+     "Inputs: the specification's own encoding of the bounded packet domain, valid encodings (+ suffix), legal non-canonical "
+     "spellings (short forms spelled out, reversed property order, non-minimal remaining length), catalogue malformations, "
+     "structure-aware corruptions, large length classes, lenient framing at length-width boundaries, PUBLISH of 2^21..2^28-1 "
+     "bytes. Whatever any front-end accepts is re-encoded (a panic is data) and re-decoded on all three; the C11 equations are "
+     "validated by TLC. One genuine defect is recorded as a known finding (D5, class C11_LENIENT_OVERRUN: the length clause "
+     "fails when a lenient front-end overruns the declared frame across a length-width boundary); the check prints "
+     "KNOWN-FINDING for it and reports every other violation.",
      "trace validation of decode/re-encode/re-decode observations")
 _reg("C12", plan_accept("decoded", "Trace_Accept_C12.cfg", "C12 invariants of decoded packets", gen="decoded"), "model_checking",
      "For every packet any front-end accepts (same input families as C11, with invalid UTF-8 / wildcards / invalid filters "
